@@ -244,7 +244,7 @@ func checkPlan(p *nestPlan, lone func(target, trunc int) ([]hReport, string)) (m
 // bucket still sees the node. No group matches a plain probe(n) call with an accepting filter.
 type disturber struct {
 	Name  string
-	Kind  string // do | contains | custom | reject
+	Kind  string // do | contains | custom | reject | list
 	Rule  string // the Match(...)... chain with %[1]s for the Where() tail and %[2]s for the group name
 	Funcs string // helper functions (with %[2]s for the group name)
 	Where bool   // has a Where() the Deadcode suffix can be added to
@@ -281,6 +281,14 @@ var disturbers = []disturber{
 		"func %[2]sh(ts string) bool {\n\treturn ts == `int`\n}\n\nfunc %[2]sf(ctx *dsl.VarFilterContext) bool {\n\treturn %[2]sh(ctx.Type.String())\n}\n", true},
 	{"cu_len", "custom", "m.Match(`len($x)`).Where(m[\"x\"].Filter(%[2]sf)%[1]s).Report(`%[2]s`)",
 		"func %[2]sf(ctx *dsl.VarFilterContext) bool {\n\treturn ctx.Type.String() != ``\n}\n", true},
+	// LIST patterns (statement lists: tried at every position of a block, several rules report one block; expression lists) whose
+	// Where() reads NO pattern variable: nothing but the walk decides the answer, and it decides it per rule. Every history loads
+	// such a template under BOTH tails (a _dead and a _live group, either order), so two of them meet in every block
+	{"ls_probes", "list", "m.Match(`probe($_); probe($_)`)%[1]s.Report(`%[2]s`)", "", false},
+	{"ls_probe_any", "list", "m.Match(`probe($_); $_`)%[1]s.Report(`%[2]s`)", "", false},
+	{"ls_any_probe", "list", "m.Match(`$_; probe($_)`)%[1]s.Report(`%[2]s`)", "", false},
+	{"ls_file", "list", "m.Match(`$_; probe($_); $*_`).Where(m.File().PkgPath.Matches(`target`)%[1]s).Report(`%[2]s`)", "", true},
+	{"ls_args", "list", "m.Match(`$_, $_`)%[1]s.Report(`%[2]s`)", "", false},
 }
 
 // renderDisturber: one group. flag "" | "dead" | "live".
@@ -328,7 +336,7 @@ func genDisturbFile(rng *rand.Rand, pool []disturber, n int, serial int) (src st
 		byKind[d.Kind] = append(byKind[d.Kind], d)
 	}
 	var picked []disturber
-	for _, k := range []string{"reject", "contains", "do", "custom"} {
+	for _, k := range []string{"reject", "contains", "do", "custom", "list"} {
 		if l := byKind[k]; len(l) > 0 {
 			picked = append(picked, l[rng.Intn(len(l))])
 		}
@@ -346,6 +354,20 @@ func genDisturbFile(rng *rand.Rand, pool []disturber, n int, serial int) (src st
 	sb.WriteString("package gorules\n\nimport \"github.com/quasilyte/go-ruleguard/dsl\"\n\n")
 	for i, d := range picked {
 		flag := []string{"", "", "dead", "live"}[rng.Intn(4)]
+		if d.Kind == "list" {
+			// both tails, either order (the group index keeps the names apart)
+			flags := []string{"dead", "live"}
+			if rng.Intn(2) == 0 {
+				flags = []string{"live", "dead"}
+			}
+			for j, fl := range flags {
+				_, g := renderDisturber(d, serial*100+50+2*i+j, fl)
+				sb.WriteString(g + "\n")
+			}
+			kinds[d.Kind]++
+			kinds[d.Kind+"+deadcode"] += 2
+			continue
+		}
 		_, g := renderDisturber(d, serial*100+i, flag)
 		sb.WriteString(g + "\n")
 		kinds[d.Kind]++
@@ -358,6 +380,10 @@ func genDisturbFile(rng *rand.Rand, pool []disturber, n int, serial int) (src st
 
 // deadByRange: the dead-code flag of every tagged node by its source range; ranges whose nodes disagree are dropped
 // (a node and a child of the same extent always lie in the same branch, so this does not happen).
+//
+// A LIST match (statements i..j of a block, expressions i..j of an argument list) has the extent first.Pos() .. last.End(), which
+// need not be the extent of a node: it is judged by the flag of the node(s) starting where it starts (key {start, -1}; the
+// elements of one list lie in one branch, and so do a node and the descendants that start where it starts).
 func deadByRange(t *hutil.Target, order []*tnode, expDead map[int]bool) map[[2]int]bool {
 	out := map[[2]int]bool{}
 	bad := map[[2]int]bool{}
@@ -366,16 +392,27 @@ func deadByRange(t *hutil.Target, order []*tnode, expDead map[int]bool) map[[2]i
 		if !ok {
 			continue
 		}
-		k := [2]int{t.Fset.Position(tn.n.Pos()).Offset, t.Fset.Position(tn.n.End()).Offset}
-		if prev, dup := out[k]; dup && prev != d {
-			bad[k] = true
+		start := t.Fset.Position(tn.n.Pos()).Offset
+		for _, k := range [][2]int{{start, t.Fset.Position(tn.n.End()).Offset}, {start, -1}} {
+			if prev, dup := out[k]; dup && prev != d {
+				bad[k] = true
+			}
+			out[k] = d
 		}
-		out[k] = d
 	}
 	for k := range bad {
 		delete(out, k)
 	}
 	return out
+}
+
+// judgeByRange: the expected flag of a report's node, by extent; for a list match by where it starts.
+func judgeByRange(byRange map[[2]int]bool, pos, end int) (dead, known bool) {
+	if d, ok := byRange[[2]int{pos, end}]; ok {
+		return d, true
+	}
+	d, ok := byRange[[2]int{pos, -1}]
+	return d, ok
 }
 
 var _ ast.Node
